@@ -109,7 +109,7 @@ def lock_coverage(ctx):
                       'are no longer atomic, messages can overtake each other', f)
     notif = func_calls(f.node, attr='updateCallback')
     if not notif:
-        raise roles.AnchorMissing('call of self.updateCallback in the funnel not found')
+        raise roles.AnchorMissing('call of self.updateCallback in the funnel not found', violation='frappy.modulebase.Module.announceUpdate:call updateCallback')
     for c in notif:
         ctx.check(in_lock(c, 'updateLock'), f'{f.qualname}:call updateCallback', c,
                   'notification inside updateLock region', 'dispatcher notification outside the updateLock region', f)
@@ -181,7 +181,12 @@ def entries_route_through_funnel(ctx):
     funnel = roles.cache_funnel(m)
     fname = funnel.name
     setter = m.method(roles.PARAMETER, '__set__', inherited=False)
-    ctx.ok(f'{setter.qualname}:calls {fname}', setter.node, 'attribute assignment routes into the funnel', setter)
+    scalls = [c for c in calls_in(setter.node) if call_attr(c) == fname]
+    cfgs = CFG(setter.node, m, setter.module)
+    ids = [i for c in scalls for i in cfgs.node_of(c)]
+    ctx.check(bool(ids) and cfgs.all_paths_pass([cfgs.entry], [cfgs.exit], ids, exc=False), f'{setter.qualname}:calls {fname}', setter.node,
+              'attribute assignment routes into the funnel', 'Parameter.__set__ does not route every assignment into the funnel: '
+              '`self.<param> = v` in a driver changes the cache without an update (or not at all)', setter)
     # read wrapper
     rw = roles.read_wrapper_with_driver_call(m)
     ctx.analysed(rw)
